@@ -489,6 +489,17 @@ def space(tier):
                 continue
             if any(kinds[i] in NEEDS_PREV and kinds[i - 1] in NEEDS_PREV and kinds[i] == kinds[i - 1] for i in range(1, n)):
                 continue
+            # a template has two segments: at most one mate (M or NM) per read
+            bad = False
+            mates = 0
+            for k_ in kinds:
+                if k_ not in NEEDS_PREV:
+                    mates = 0
+                elif k_ in ("M", "NM"):
+                    mates += 1
+                    bad = bad or mates > 1
+            if bad:
+                continue
             if n == 4 and len(set(kinds)) < 3:
                 continue
             h = sum((i + 1) * knames.index(k) for i, k in enumerate(kinds))
